@@ -153,6 +153,11 @@ func RunSingleModelJSON(r io.Reader, w io.Writer, splitOutputs bool) {
 
 	description = model.Description()
 
+	if inputs == nil {
+		log("No inputs provided: nothing to run")
+		return
+	}
+
 	outputs := InitialiseOutputs(model, inputs.Len3(), 1)
 
 	model.Run(inputs, states, outputs)
